@@ -263,6 +263,28 @@ func runEntries(ctx *RunCtx) error {
 	}
 	t0 := time.Now()
 	prog, err := engine.Load(RepoRoot, ov, ch.Patterns...)
+	for attempt := 0; err != nil && attempt < 4; attempt++ {
+		// A harness file that no longer type-checks against the tree (an unexported function or
+		// field it names was renamed or removed by a refactoring) must not turn the check into an
+		// error: if the tree itself loads, the offending harness files are dropped and their entries
+		// are reported as inconclusive.
+		if _, plainErr := engine.Load(RepoRoot, nil, ch.Patterns...); plainErr != nil {
+			return err // the tree itself does not build
+		}
+		dropped := false
+		for path := range ov {
+			base := filepath.Base(path)
+			if base != "zz_verif_api.go" && strings.Contains(err.Error(), base) {
+				delete(ov, path)
+				dropped = true
+				ctx.Inconcl = append(ctx.Inconcl, fmt.Sprintf("harness file %s does not type-check against the current tree (its entries are skipped): %s", base, firstLines(errLinesWith(err.Error(), base), 2)))
+			}
+		}
+		if !dropped {
+			return err
+		}
+		prog, err = engine.Load(RepoRoot, ov, ch.Patterns...)
+	}
 	if err != nil {
 		return err
 	}
@@ -288,7 +310,8 @@ func runEntries(ctx *RunCtx) error {
 		}
 		fn := prog.Func(e.PkgPath, e.Func)
 		if fn == nil {
-			return fmt.Errorf("harness entry %s.%s not found", e.PkgPath, e.Func)
+			ctx.Inconcl = append(ctx.Inconcl, fmt.Sprintf("harness entry %s.%s is not available (its harness file was dropped)", e.PkgPath, e.Func))
+			continue
 		}
 		opt := e.Opt
 		opt.Known = known
@@ -749,4 +772,15 @@ func sortedKeys(m map[string]bool) []string {
 	}
 	sort.Strings(out)
 	return out
+}
+
+// errLinesWith returns the lines of an error text that mention sub.
+func errLinesWith(txt, sub string) string {
+	var out []string
+	for _, l := range strings.Split(txt, "\n") {
+		if strings.Contains(l, sub) {
+			out = append(out, strings.TrimSpace(l))
+		}
+	}
+	return strings.Join(out, " | ")
 }
